@@ -38,8 +38,24 @@ ASSUMPTIONS = [
     "inertiafromgeom='true' with an <inertial> element and no contributing geom is not generated (the documentation does not "
     "say which of the two rules wins)",
     "the ellipsoidal shell has no closed form; the reference integrates the surface element numerically (uniform surface "
-    "density as documented for shellinertia)",
+    "density as documented for shellinertia: overview.rst 'mass is assumed to be uniformly distributed on the surface')",
+    "MASS of a density-specified ellipsoidal shell is accepted within 1.07 % of density x (quadrature area): the area of a "
+    "general ellipsoid has no closed form and the documentation (XMLreference geom/density 'semantics of mass/area', "
+    "geom/shellinertia 'density is interpreted as surface rather than volumetric density', overview.rst 'density is interpreted "
+    "as mass-per-area') promises the meaning of the density, not an exact area; any closed-form implementation has to use an "
+    "approximation and the best known one (Thomsen, worst case 1.061 %) is the tolerance.  The tolerance applies to that geom's "
+    "own mass only (the exact contributions of the other geoms of the body are subtracted first), never to a mass given by the "
+    "mass attribute, and not to the centre of mass or to the moments per unit mass.  settotalmass is not combined with an "
+    "ellipsoidal shell because the rescaling would spread the accepted deviation over every body of the model",
+    "a body holds at most one contributing ellipsoidal shell and is not within 30 % of boundmass/boundinertia when it holds one "
+    "(extra shells / such bodies fall back to solid ellipsoids): the known finding ellipsoid-shell:inertia-tensor is confirmed "
+    "per geom on the residual body-minus-other-geoms, which needs both",
+    "principal-axes-absolute-eps:mesh-convergence is confirmed by a counterfactual: the identical tessellation series scaled to "
+    "25 length units (documented unit invariance, overview.rst 'Units are unspecified') must pass every comparison",
 ]
+
+ELLIPSOID_SHELL_MAX_DEV = 0.15      # what the layer mechanism can produce for the generated aspect ratios (<= 14): 14.7 %
+MESH_TWIN_SCALE = 25.0
 
 GT = ["sphere", "capsule", "ellipsoid", "cylinder", "box"]
 EULERSEQS = ["xyz", "XYZ", "zyx", "ZYX", "xYz", "zxz", "yXz", "ZxY", "XYX", "yzx"]
@@ -229,6 +245,18 @@ def gen_model(c):
             if g.get("density") == 0.0:
                 g["density"] = 700.0
                 a["density"] = "700"
+        # ellipsoidal shells (see ASSUMPTIONS): at most one per body, and not on a body that the bound* rules would touch
+        es = [(a, g) for a, g in glist if g["type"] == "ellipsoid" and g["shell"]]
+        if es and (comp["boundmass"] or comp["boundinertia"]):
+            pp = [geom_part(g) for a, g in glist if comp["lo"] <= g["group"] <= comp["hi"]]
+            pp = [q for q in pp if q is not None]
+            if pp:
+                M_, _, I_ = ig.compose(pp)
+                if M_ < 1.3 * comp["boundmass"] or float(np.linalg.eigvalsh(I_).min()) < 1.3 * comp["boundinertia"]:
+                    es = [None] + es
+        for a, g in es[1:]:
+            g["shell"] = False
+            a.pop("shellinertia")
         if want_inertial:
             m = float(np.exp(rng.uniform(np.log(0.05), np.log(10)))) * s ** 3
             ine = {"pos": rng.normal(size=3) * 0.1 * s, "mass": m}
@@ -268,8 +296,8 @@ def gen_model(c):
         b["_ch"] = ch
         b["_ba"] = ba
         bodies.append(b)
-    # the ellipsoidal shell is a known deviation (finding C35-ellipsoid-shell...): keep it from leaking into every other
-    # body of the model through the settotalmass rescaling
+    # the mass of a density-specified ellipsoidal shell is accepted within the Thomsen bound (ASSUMPTIONS): keep that tolerance
+    # from leaking into every other body of the model through the settotalmass rescaling
     if comp["settotalmass"] > 0 and any(g["type"] == "ellipsoid" and g["shell"] for b in bodies for g in b["geoms"]):
         comp["settotalmass"] = -1.0
         ca.pop("settotalmass")
@@ -400,13 +428,106 @@ def compare_body(P, m, bid, r, sig_prefix, wit, itol=5e-6, extent=1.0, kinds=(),
                         dict(wit, body=bid, got=I, want=r["I"], relerr=e / max(sc, 1e-300), abserr=e, abs_unit=abs_unit))
         else:
             bad("inertia-tensor", I, r["I"], e / max(sc, 1e-300))
-    # quaternion unit, triangle inequality on the stored principal moments
+    check_stored(iq, di, bad)
+    return ok
+
+
+def check_stored(iq, di, bad):
+    """quaternion unit, triangle inequality on the stored principal moments"""
     if abs(float(iq @ iq) - 1) > 1e-9:
         bad("iquat-not-unit", iq, None, abs(float(iq @ iq) - 1))
     d = np.sort(di)
     if d[0] < 0 or d[0] + d[1] < d[2] * (1 - 1e-9) - 1e-300:
         bad("triangle-inequality", di, None, float(d[2] - d[0] - d[1]))
-    return ok
+
+
+def compare_ellipsoid_shell_body(P, m, bid, b, r, comp, wit, extent, tag, itol=5e-6):
+    """Body whose contributing geoms include exactly ONE ellipsoidal shell (generator invariant) and which the bound/balance
+    rules leave alone.  The exact reference contributions of all other geoms are subtracted from the compiled body (mass, first
+    moment, tensor about the body origin); what remains must be the ellipsoidal shell: mass within the Thomsen bound of
+    density x area (exact when given by the mass attribute), centre at the geom position, moments per unit mass in the geom
+    frame equal to the uniform-shell quadrature.  Only a tensor mismatch that equals the layer model of the known finding
+    (vf/ref/inertia_geom.ellipsoid_layer_unit_inertia) AND stays below ELLIPSOID_SHELL_MAX_DEV is reported under
+    `ellipsoid-shell:inertia-tensor`; every other mismatch keeps the generic `body:` signature."""
+    mass = float(m["body_mass"][bid])
+    ipos = m["body_ipos"][bid].copy()
+    iq = m["body_iquat"][bid].copy()
+    di = m["body_inertia"][bid].copy()
+    R = so3.quat_to_mat(iq)
+    I = R @ np.diag(di) @ R.T
+    ok = [True]
+
+    def bad(what, got, want, err):
+        ok[0] = False
+        P.violation("body:%s:%s" % (what, tag), dict(wit, body=bid, what=what, got=got, want=want, err=err, ref_source=r["src"],
+                                                      via="residual after subtracting the other geoms"))
+    eg, pe, others = None, None, []
+    for g in b["geoms"]:
+        if comp["lo"] <= g["group"] <= comp["hi"]:
+            q = geom_part(g)
+            if q is None:
+                continue
+            if g["type"] == "ellipsoid" and g["shell"]:
+                assert eg is None, "generator invariant: one ellipsoidal shell per body"
+                eg, pe = g, q
+            else:
+                others.append(q)
+    Mref = r["mass"]
+    m_e = mass - sum(q[0] for q in others)
+    first = mass * ipos - sum((q[0] * np.asarray(q[1]) for q in others), np.zeros(3))
+    IO = I + ig.shift(mass, ipos) - sum((np.asarray(q[2]) + ig.shift(q[0], q[1]) for q in others), np.zeros((3, 3)))
+    # mass
+    dm = abs(m_e - pe[0])
+    by_density = "mass" not in eg
+    P.note_max("mass_relerr_ellipsoid_shell_" + ("density" if by_density else "massattr"), dm / pe[0])
+    if dm > 1e-11 * Mref + (ig.THOMSEN_MAX_RELERR * pe[0] if by_density else 0.0):
+        bad("mass", mass, Mref, dm / Mref)
+    elif by_density and dm > 1e-11 * Mref:
+        P.count("ellipsoid_shell_mass_within_thomsen_bound")
+    if not m_e > 0.5 * pe[0]:
+        check_stored(iq, di, bad)
+        return False
+    amp = Mref / pe[0]
+    # centre of the residual = geom position (exact by symmetry, whatever the mass)
+    c_e = first / m_e
+    e = float(np.abs(c_e - pe[1]).max())
+    P.note_max("com_err_over_extent_ellipsoid_shell", e / extent)
+    if e > 2e-11 * amp * (extent + float(np.abs(ipos).max())):
+        bad("com", c_e, pe[1], e / extent)
+    # moments per unit mass of the residual about its own centre, in the geom frame
+    I_e = IO - ig.shift(m_e, c_e)
+    Rg = np.asarray(eg["R"])
+    T = Rg.T @ (I_e / m_e) @ Rg
+    Iu = ig.primitive("ellipsoid", eg["size"], True)[1]
+    sc = float(Iu.max())
+    tolT = itol * float(np.abs(r["I"]).max()) / m_e
+    eT = float(np.abs(T - np.diag(Iu)).max())
+    if eT <= tolT:
+        P.note_max("tensor_relerr_ellipsoid_shell", eT / sc)
+    else:
+        Im = ig.ellipsoid_layer_unit_inertia(*eg["size"])
+        eM = float(np.abs(T - np.diag(Im)).max())
+        dev = float(np.abs(np.diag(T) / Iu - 1).max())
+        mech = eM <= tolT + 1e-8 * sc                       # the residual IS the layer of the finding
+        mech_abs = (not mech) and m_e * eM <= 5e-12         # ... plus the absolute eigen threshold of the other finding
+        det = dict(wit, body=bid, geom_size=eg["size"], unit_moments_got=np.diag(T), unit_moments_uniform_shell=Iu,
+                   unit_moments_layer_model=Im, offdiag=float(np.abs(T - np.diag(np.diag(T))).max()), dev=dev, tol=tolT)
+        if (mech or mech_abs) and dev <= ELLIPSOID_SHELL_MAX_DEV:
+            ok[0] = False
+            P.count("ellipsoid_shell_inertia_hits")
+            P.note_max("ellipsoid_shell_inertia_dev", dev)
+            P.violation("ellipsoid-shell:inertia-tensor", det)
+            if mech_abs:
+                P.count("abs_eps_hits")
+                P.violation("principal-axes-absolute-eps:body", dict(det, abserr=m_e * eM, abs_unit=1.0))
+        elif m_e * eT <= 5e-12:
+            ok[0] = False
+            P.count("abs_eps_hits")
+            P.violation("principal-axes-absolute-eps:body", dict(det, abserr=m_e * eT, abs_unit=1.0))
+        else:
+            bad("inertia-tensor", np.diag(T), Iu, eT / sc)
+    check_stored(iq, di, bad)
+    return ok[0]
 
 
 def c_mtol(prefix):
@@ -449,12 +570,14 @@ def run_prim(P, L, c):
         bid = names[b["name"]]
         kinds = body_kinds(b, comp) if r["src"].startswith("geoms") else set()
         ext = max(c.get("scale", 1.0), 1e-3)
-        # ellipsoidal shells are reported under their own signature (the mechanism is specific)
-        pref = "ellipsoid-shell" if "ellipsoid-shell" in kinds else "body"
         sk = sorted(kinds) if len(kinds) <= 1 else ["multi"]
-        if pref == "ellipsoid-shell":
-            sk = ["single" if r["nparts"] == 1 else "multi"]
-        ok = compare_body(P, m, bid, r, pref, wit, extent=ext, kinds=sk if r["src"].startswith("geoms") else ())
+        if "ellipsoid-shell" in kinds and not (r["bounded"] or r["balanced"]):
+            # the ellipsoidal shell is isolated from the rest of the body and compared on its own (mass within the Thomsen
+            # bound; tensor under the finding's signature only when the finding's mechanism is confirmed)
+            P.count("ellipsoid_shell_bodies_" + ("single" if r["nparts"] == 1 else "multi"))
+            ok = compare_ellipsoid_shell_body(P, m, bid, b, r, comp, wit, ext, "+".join(sk))
+        else:
+            ok = compare_body(P, m, bid, r, "body", wit, extent=ext, kinds=sk if r["src"].startswith("geoms") else ())
         P.case(key="prim|%d|%s" % (c["mseed"], b["name"]), nontrivial=r["mass"] > 0,
                sample={"model_seed": c["mseed"], "body": b["name"], "source": r["src"], "kinds": sorted(kinds), "mass": r["mass"],
                        "ifg": comp["ifg"], "scale": c.get("scale", 1.0)})
@@ -547,7 +670,8 @@ def run_mesh(P, L, c):
         wit = {"case": c, "size": size, "errors": errs}
         if t == "box":
             if max(e for _, e in errs) > 2e-5:
-                P.violation("principal-axes-absolute-eps:mesh-convergence" if abs_hit else "mesh-box-not-exact:%s" % mode, wit)
+                P.violation("principal-axes-absolute-eps:mesh-convergence" if abs_hit and scaled_twin_passes(P, L, c, wit)
+                            else "mesh-box-not-exact:%s" % mode, wit)
         else:
             e0, e1, e2 = [e for _, e in errs]
             P.note_max("mesh_finest_relerr", e2)
@@ -556,12 +680,28 @@ def run_mesh(P, L, c):
             P.note_max("mesh_rate_min_neg", -min(r1, r2))
             # resolutions double: O(h^2) -> ratios ~4; float32 vertices floor the error at ~1e-6
             if not (e2 < e1 < e0) or min(r1, r2) < 3.0 or max(r1, r2) > 5.5 or e2 > 0.05:
-                if abs_hit:
+                if abs_hit and scaled_twin_passes(P, L, c, wit):
                     # one of the three meshes already failed against its own polyhedron because of the absolute eigen
-                    # threshold: the series cannot converge, same mechanism
+                    # threshold, and the identical series in larger length units converges: same mechanism
                     P.violation("principal-axes-absolute-eps:mesh-convergence", wit)
                 else:
                     P.violation("mesh-not-converging-to-primitive:%s:%s" % (t, mode), wit)
+
+
+def scaled_twin_passes(P, L, c, wit):
+    """counterfactual for principal-axes-absolute-eps:mesh-convergence: the same random shapes, poses and resolutions with every
+    length multiplied (scale -> MESH_TWIN_SCALE; the generator draws are identical, all lengths are proportional to scale) must
+    pass every comparison of run_mesh, including the convergence series"""
+    if c.get("_twin"):
+        return False
+    P2 = core.Part()
+    run_mesh(P2, L, dict(c, scale=MESH_TWIN_SCALE, _twin=True))
+    P.count("mesh_convergence_twins")
+    sigs = sorted(set(v["signature"] for v in P2.violations))
+    wit["scaled_twin_violations"] = sigs
+    if sigs:
+        P.count("mesh_convergence_twin_also_fails")
+    return not sigs and P2.counters.get("mesh_convergence_series", 0) > 0
 
 
 REJECTS = ["triangle", "fullinertia-indefinite", "negative-mass", "negative-diag"]
